@@ -78,8 +78,38 @@ type Violation struct {
 	Site    string
 	Message string
 	Vector  []SymValue
+	// further witnesses of the same violation (other paths): native confirmation may depend on
+	// real timing, so the driver tries them in turn when the first does not reproduce
+	Alt     [][]SymValue
 	Trace   []string
 	Harness string
+}
+
+// addAlt keeps up to 4 further witnesses whose input values differ from those already kept
+func (v *Violation) addAlt(vec []SymValue) {
+	if len(v.Alt) >= 4 {
+		return
+	}
+	same := func(a, b []SymValue) bool {
+		if len(a) != len(b) {
+			return false
+		}
+		for i := range a {
+			if a[i] != b[i] {
+				return false
+			}
+		}
+		return true
+	}
+	if same(v.Vector, vec) {
+		return
+	}
+	for _, a := range v.Alt {
+		if same(a, vec) {
+			return
+		}
+	}
+	v.Alt = append(v.Alt, vec)
 }
 
 type SymValue struct {
@@ -157,6 +187,14 @@ func (r *Result) merge(o *Result) {
 		if !seen[v.Key()] {
 			seen[v.Key()] = true
 			r.Violations = append(r.Violations, v)
+			continue
+		}
+		for _, have := range r.Violations {
+			if have.Key() == v.Key() {
+				for _, a := range append([][]SymValue{v.Vector}, v.Alt...) {
+					have.addAlt(a)
+				}
+			}
 		}
 	}
 	r.ChecksProved += o.ChecksProved
@@ -661,6 +699,7 @@ func (e *Engine) addViolation(kind, label, site, msg string, vec []SymValue) {
 	}
 	for _, o := range e.res.Violations {
 		if o.Key() == v.Key() {
+			o.addAlt(vec)
 			return
 		}
 	}
